@@ -7,7 +7,14 @@ PAT=${1:-}
 OUT=/verif/sensitivity_results.txt
 run() { # name patch prop
   local line
-  line=$(tools/mutant_run.sh "$2" "$3" 2>&1 | grep '^MUTANT' | head -1)
+  local outp
+  outp=$(tools/mutant_run.sh "$2" "$3" 2>&1)
+  if echo "$outp" | grep -q PATCH-FAILED; then
+    grep -v "^$1 " $OUT > $OUT.tmp 2>/dev/null; mv $OUT.tmp $OUT 2>/dev/null
+    echo "$1 property=$3 PATCH-DOES-NOT-APPLY" | tee -a $OUT
+    return
+  fi
+  line=$(echo "$outp" | grep '^MUTANT' | head -1)
   local rc=$(echo "$line" | sed 's/.* rc=\([0-9]*\).*/\1/')
   local verdict=MISSED
   [ "$rc" = "1" ] && verdict=CAUGHT
